@@ -82,6 +82,7 @@ def run_case(case):
     consts = [j for j in range(d) if df.iloc[:, j].nunique() == 1]
 
     # ---- record mode ---------------------------------------------------------------------------------------
+    protocol_ok = True
     for seedform in ('none', 'int', 'rs'):
         for rows in (1, 2, 7, 1000):
             if rows == 1000 and seedform != 'none':
@@ -107,21 +108,28 @@ def run_case(case):
             if np.isnan(O).any():
                 r.violation(f'{sig}:missing-values', f'{tag}: sample({rows}) contains NaN', case=case)
                 return r
+            for j in consts:
+                if not np.all(O[:, j] == df.iloc[0, j]):
+                    r.violation(f'{sig}:constant-column', f'{tag}: constant training column {cols[j]!r} is not reproduced',
+                                case=case)
+                    return r
+            if not protocol_ok:
+                continue
             dr = seams.draws(log)
-            if len(dr) != 1 or dr[0][0] != 'multivariate_normal':
-                r.violation(f'{sig}:draw-protocol', f'{tag}: sample({rows}) made draws {[x[0] for x in dr]}, expected one '
-                            f'multivariate_normal', case=case)
-                return r
-            name, args, kw, Z = dr[0]
-            mean = np.asarray(args[0] if args else kw['mean'], float)
-            cov = np.asarray(args[1] if len(args) > 1 else kw['cov'], float)
-            size = kw.get('size', args[2] if len(args) > 2 else None)
-            if not (mean.shape == (d,) and np.all(mean == 0) and cov.shape == (d, d) and
-                    np.max(np.abs(cov - C)) <= 1e-12 and size == rows):
-                r.violation(f'{sig}:normal-draw-parameters', f'{tag}: the normal draw used mean={mean.tolist()}, size={size}, '
-                            f'cov-correlation max diff {np.max(np.abs(cov - C)) if cov.shape == C.shape else "shape"}',
-                            case=case)
-                return r
+            ok_draw = len(dr) == 1 and dr[0][0] == 'multivariate_normal'
+            if ok_draw:
+                name, args, kw, Z = dr[0]
+                mean = np.asarray(args[0] if args else kw['mean'], float)
+                cov = np.asarray(args[1] if len(args) > 1 else kw['cov'], float)
+                size = kw.get('size', args[2] if len(args) > 2 else None)
+                ok_draw = (mean.shape == (d,) and np.all(mean == 0) and cov.shape == (d, d) and
+                           np.max(np.abs(cov - C)) <= 1e-12 and size == rows)
+            if not ok_draw:
+                # a different (possibly equally valid) way of drawing the normal scores: the exact identity and the scripted
+                # environment no longer apply; the distributional clauses are decided on a large seeded sample instead
+                protocol_ok = False
+                r.hit('protocol-changed')
+                continue
             Z = np.asarray(Z, float).reshape(rows, d)
             for j, (c, u) in enumerate(zip(cols, gm.univariates)):
                 exp = np.asarray(u.percent_point(stats.norm.cdf(Z[:, j])), float)
@@ -137,26 +145,35 @@ def run_case(case):
     gm.set_random_state(None)
     r.hit('record')
 
-    # ---- scripted environment -----------------------------------------------------------------------------
-    Zs = lattice_normal(C)
-    with seams.seam(script={'multivariate_normal': lambda *a, **k: Zs.copy()}):
+    # ---- scripted environment (or, if the draw protocol changed, a large seeded sample) ------------------------
+    if protocol_ok:
+        Zs = lattice_normal(C)
+        with seams.seam(script={'multivariate_normal': lambda *a, **k: Zs.copy()}):
+            r.tr()
+            out = gm.sample(NSCRIPT)
+        nrows, band_ks, band_tau, mode = NSCRIPT, 3.0 / np.sqrt(NSCRIPT), 0.03, 'script'
+    else:
+        nrows, mode = 4000, 'closure'
+        band_ks, band_tau = 3.27 / np.sqrt(nrows), 0.08          # DKW / Hoeffding-type bands at 1e-9
+        gm.set_random_state(4242 + int(seed))
         r.tr()
-        out = gm.sample(NSCRIPT)
+        out = gm.sample(nrows)
+        gm.set_random_state(None)
     O = out.to_numpy(dtype=float)
-    if O.shape != (NSCRIPT, d) or np.isnan(O).any():
-        r.violation(f'{sig}:schema', f'{tag}: scripted sample has shape {O.shape} / NaN', case=case)
+    if O.shape != (nrows, d) or np.isnan(O).any():
+        r.violation(f'{sig}:schema', f'{tag}: {mode} sample has shape {O.shape} / NaN', case=case)
         return r
-    band_ks = 3.0 / np.sqrt(NSCRIPT)
     worst_ks = 0.0
     for j, (c, u) in enumerate(zip(cols, gm.univariates)):
         if j in consts:
             continue
-        # monotone transform of the scores
-        order = np.argsort(Zs[:, j], kind='stable')
-        if np.any(np.diff(O[order, j]) < -1e-9 * (abs(O[:, j]).max() + 1)):
-            r.violation(f'{sig}:transform-not-monotone', f'{tag}: z -> percent_point_{c}(Phi(z)) is not non-decreasing',
-                        case=case)
-            return r
+        if protocol_ok:
+            # monotone transform of the scores
+            order = np.argsort(Zs[:, j], kind='stable')
+            if np.any(np.diff(O[order, j]) < -1e-9 * (abs(O[:, j]).max() + 1)):
+                r.violation(f'{sig}:transform-not-monotone', f'{tag}: z -> percent_point_{c}(Phi(z)) is not non-decreasing',
+                            case=case)
+                return r
         fin = np.isfinite(O[:, j])
         F = np.asarray(u.cdf(O[fin, j]), float)
         # KS distance between the law of the sampled column and the fitted marginal (two-sided, from the definition)
@@ -183,12 +200,12 @@ def run_case(case):
             if np.isnan(tt):
                 continue
             worst_tau = max(worst_tau, abs(tt - tm))
-            if abs(tt - tm) > 0.03:
+            if abs(tt - tm) > band_tau:
                 r.violation(f'{sig}:rank-dependence', f'{tag}: Kendall tau of sampled columns ({cols[i]!r},{cols[j]!r}) is '
                             f'{tt:.4f}, the fitted correlation {rho:.4f} implies {tm:.4f}', case=case)
                 return r
     r['extra']['max_script_tau_dev_x1000'] = worst_tau * 1000
-    r.hit('script')
+    r.hit(mode)
 
     # ---- recovery of the generating copula ----------------------------------------------------------------
     if cfg in ('default', 'kde-instance') and t[1] != 'near-singular':
@@ -223,5 +240,6 @@ def run_case(case):
 
 
 def finish(agg, tier):
-    for k in ('record', 'script', 'recovery'):
+    for k in ('record', 'recovery'):
         engine.require(agg['hits'].get(k, 0) >= 20, f'{k} under-explored')
+    engine.require(agg['hits'].get('script', 0) + agg['hits'].get('closure', 0) >= 20, 'distributional part under-explored')
